@@ -45,27 +45,42 @@ def split_blocks(text):
             out[cur].append(line)
     return out
 
+NPROC = max(1, min(16, (os.cpu_count() or 4)))
+
+def _chunks(items, n):
+    k = max(1, (len(items) + n - 1) // n)
+    return [items[i:i + k] for i in range(0, len(items), k)]
+
+def _run(cmd, inp):
+    r = subprocess.run(cmd, input=inp, capture_output=True, text=True)
+    if r.returncode != 0:
+        raise RuntimeError(f'{cmd[0]} failed: ' + r.stderr[-2000:])
+    return r.stdout
+
 def run_impl(items, work):
-    """items: list of (id, feature, text). returns {id: [lines]}"""
-    res = {}
+    """items: list of (id, feature, text). returns {id: block text}"""
+    from concurrent.futures import ThreadPoolExecutor
+    jobs = []
     for feat in (False, True):
         sel = [(i, t) for (i, f, t) in items if bool(f) == feat]
-        if not sel:
-            continue
-        inp = ''.join(f'#DEF {i}\n{t}\n#END\n' for (i, t) in sel)
-        r = subprocess.run([smx_bin(feat, work)], input=inp, capture_output=True, text=True)
-        if r.returncode != 0:
-            raise RuntimeError('smx failed: ' + r.stderr[-2000:])
-        res.update(split_blocks(r.stdout))
+        for ch in _chunks(sel, NPROC):
+            if ch:
+                jobs.append(([smx_bin(feat, work)], ''.join(f'#DEF {i}\n{t}\n#END\n' for (i, t) in ch)))
+    res = {}
+    with ThreadPoolExecutor(NPROC) as ex:
+        for out in ex.map(lambda j: _run(*j), jobs):
+            res.update(split_blocks(out))
     return res
 
 def run_model(items):
     """items: list of (id, feature, prefix). returns {id: [lines]}"""
-    inp = ''.join(f'{i} {1 if f else 0} {p}\n' for (i, f, p) in items)
-    r = subprocess.run([DRIVER], input=inp, capture_output=True, text=True)
-    if r.returncode != 0:
-        raise RuntimeError('driver failed: ' + r.stderr[-2000:])
-    return split_blocks(r.stdout)
+    from concurrent.futures import ThreadPoolExecutor
+    jobs = [([DRIVER], ''.join(f'{i} {1 if f else 0} {p}\n' for (i, f, p) in ch)) for ch in _chunks(items, NPROC) if ch]
+    res = {}
+    with ThreadPoolExecutor(NPROC) as ex:
+        for out in ex.map(lambda j: _run(*j), jobs):
+            res.update(split_blocks(out))
+    return res
 
 def verdict_of(lines):
     for l in lines:
@@ -87,31 +102,61 @@ def err_of(lines):
             return l
     return None
 
+def _region_at(rline, idx):
+    if not rline:
+        return 'FE'
+    k = 0
+    for part in rline.split('\t')[1:]:
+        r, n = part.rsplit(':', 1)
+        k += int(n)
+        if idx < k:
+            return r
+    return 'FE'
+
 def compare_one(model, impl):
     """first difference between the model's and the implementation's dump"""
-    mi = 0
-    n = max(len(model), len(impl))
+    rline = None
+    m2 = []
+    for l in model:
+        if l.startswith('R\t'):
+            rline = l
+        else:
+            m2.append(l)
+    if m2 == impl:
+        return {'status': 'same'}
+    n = max(len(m2), len(impl))
     for k in range(n):
-        ml = model[k] if k < len(model) else '<end>'
+        ml = m2[k] if k < len(m2) else '<end>'
         il = impl[k] if k < len(impl) else '<end>'
-        region = None
-        mtext = ml
-        if ml.startswith('T '):
-            parts = ml.split(' ', 2)
-            region = parts[1]
-            mtext = 'T ' + (parts[2] if len(parts) > 2 else '')
-        if mtext != il:
-            kind = 'T2' if (ml.startswith('T ') or il.startswith('T ')) else 'T1'
-            return {'status': 'diff', 'kind': kind, 'region': region or 'FE', 'line': k, 'model': ml, 'impl': il}
+        if ml == il:
+            continue
+        if ml.startswith('T\t') and il.startswith('T\t'):
+            mt = ml.split('\t')[1:]
+            it = il.split('\t')[1:]
+            j = 0
+            while j < len(mt) and j < len(it) and mt[j] == it[j]:
+                j += 1
+            return {'status': 'diff', 'kind': 'T2', 'region': _region_at(rline, min(j, len(mt) - 1)), 'line': j,
+                    'model': ' '.join(mt[max(0, j - 6):j + 4]) if j < len(mt) else '<end>',
+                    'impl': ' '.join(it[max(0, j - 6):j + 4]) if j < len(it) else '<end>'}
+        kind = 'T2' if (ml.startswith('T\t') or il.startswith('T\t')) else 'T1'
+        return {'status': 'diff', 'kind': kind, 'region': 'FE', 'line': k, 'model': ml[:300], 'impl': il[:300]}
     return {'status': 'same'}
 
 def regions_of(model):
     out = {}
     for l in model:
-        if l.startswith('T '):
-            r = l.split(' ', 2)[1]
-            out[r] = out.get(r, 0) + 1
+        if l.startswith('R\t'):
+            for part in l.split('\t')[1:]:
+                r, n = part.rsplit(':', 1)
+                out[r] = out.get(r, 0) + int(n)
     return out
+
+def ntokens_of(lines):
+    for l in lines:
+        if l.startswith('T\t'):
+            return l.count('\t')
+    return 0
 
 def compare(cases, work):
     """cases: list of dicts {'id', 'stream', 'feature', 'def'} (+ optional 'text')"""
@@ -130,7 +175,7 @@ def compare(cases, work):
         i = impl.get(c['id'], ['<missing>'])
         r = compare_one(m, i)
         r.update(id=c['id'], stream=c['stream'], feature=c['feature'], verdict=verdict_of(i),
-                 model_verdict=verdict_of(m), err=err_of(i), regions=regions_of(m), ntokens=sum(1 for l in i if l.startswith('T ')))
+                 model_verdict=verdict_of(m), err=err_of(i), regions=regions_of(m), ntokens=ntokens_of(i))
         results.append(r)
     return results
 
